@@ -160,6 +160,12 @@ def plan(rng, tier):
                 # in-comparison sweep comes: a ghost whose parent is evicted
                 # then has no owner left
                 out.append(["sweep", "minimize", 0])
+        elif op[0] in RAISABLE and rng.random() < 0.08:
+            # a *failing* operation of yet another kind: everything is
+            # evicted and the storage fails to deliver the n-th node the
+            # operation asks for; pins must be released all the same
+            op = ["@loadfail", rng.randint(1, 6),
+                  rng.choice(["err", "poskey"]), op]
         elif hk and op[0] in RAISABLE and rng.random() < 0.2:
             # a *failing* operation of another kind: the n-th key comparison
             # raises (on both sides); pins must be released all the same
@@ -181,7 +187,7 @@ def plan(rng, tier):
 
 def simplify(plan):
     for i, o in enumerate(plan["ops"]):
-        if o[0] == "@cmp":
+        if o[0] in ("@cmp", "@loadfail"):
             p = copy.deepcopy(plan)
             p["ops"][i] = o[3]
             yield p
@@ -376,6 +382,48 @@ def execute(plan, ctx):
             if name == "@cmp":
                 op = op0[3]
                 fault = (op0[1], op0[2])
+            if name == "@loadfail":
+                from ..world import SimLoadError, SimPOSKeyError
+                op = op0[3]
+                A.seqs.clear()
+                B.seqs.clear()
+                _sweep(A, "minimize", 0, ctx)
+                A.conn.load_fault_exc = SimPOSKeyError \
+                    if op0[2] == "poskey" else SimLoadError
+                A.conn.load_fault = op0[1]
+                got = _do(A, op, dom, cfg, None)
+                fired = A.conn.load_fault is None
+                A.conn.load_fault = None
+                if not fired:
+                    continue
+                ctx.fault("load-fail")
+                opn = op[0] if op[0] != "mod" else op[1]
+                ctx.ev(opn, "load-fail", _outcome_class(got))
+                sig = dict(base, op=opn, fault="load-fail")
+                sticky = [o for o in A.conn.nodes() if o._p_state == STICKY]
+                if sticky:
+                    raise Violation(
+                        dict(sig, oracle="left-sticky",
+                             outcome=_outcome_class(got),
+                             node=_node_class(sticky[0], A.c)),
+                        "after %r -> %r (load %d failed) a %s node is still "
+                        "in the sticky state" % (
+                            op, got, op0[1], _node_class(sticky[0], A.c)))
+                # the failed read changed nothing
+                try:
+                    la = ops.listing(A.c, mapping)
+                    lb = ops.listing(B.c, mapping)
+                except Exception as e:
+                    raise Violation(dict(sig, oracle="listing-raised",
+                                         exc=type(e).__name__),
+                                    "listing after %r raised %r" % (op, e))
+                if not ops.same_value(la, lb):
+                    raise Violation(dict(sig, oracle="twin-listing"),
+                                    "after %r (load failure): evicted side "
+                                    "lists %r, twin %r" % (op, la[:30],
+                                                           lb[:30]))
+                ctx.interleaving((opn, _outcome_class(got), "load-fail"))
+                continue
             if name == "@raise":
                 op = op0[2]
                 # count on a dry run of the (read-only) operation, then let
